@@ -135,6 +135,8 @@ func (d *parserDom) inferRoles() *roles {
 	}
 	rl := &roles{byFn: map[*ssa.Function]string{}}
 	d.p.memoRoles = rl
+	d.inferring = true
+	defer func() { d.inferring = false }()
 	var members []*ssa.Function
 	for m := range d.scc {
 		members = append(members, m)
@@ -180,8 +182,8 @@ func (d *parserDom) inferRoles() *roles {
 			if isNodeType(t) {
 				hasNode = true
 			}
-			if b, ok := t.Underlying().(*types.Basic); ok && b.Kind() == types.Int {
-				hasInt = true
+			if b, ok := t.Underlying().(*types.Basic); ok && b.Info()&types.IsInteger != 0 {
+				hasInt = true // a binding power, or the token that opened the projection from which the power follows
 			}
 		}
 		if hasNode && hasInt {
@@ -479,6 +481,11 @@ func (rr *renderer) sub(ev *Event) string {
 		a := ev.Args[i+1]
 		t := sig.Params().At(i).Type()
 		if b, ok := t.Underlying().(*types.Basic); ok && b.Info()&types.IsInteger != 0 {
+			if c, known := rr.st.KnownInt(a); known && role == "PROJ" {
+				// what the projection parser is given (a binding power, or the token that opened the projection) counts
+				// as the power at which it continues with the operator loop
+				a = avConst{constant.MakeInt64(projEffective(rr.d.p, c))}
+			}
 			ints = append(ints, rr.power(a))
 		} else if isNodeType(t) {
 			nodes = append(nodes, rr.val(a))
@@ -506,6 +513,40 @@ func (rr *renderer) sub(ev *Event) string {
 		s += "<" + strings.Join(la, " ") + ">"
 	}
 	return s
+}
+
+// projEffective: the binding power at which the projection parser, given argument c, hands over to the operator loop
+// (by interpretation of the projection parser on a selector token); c itself when that cannot be determined.
+func projEffective(p *Program, c int64) int64 {
+	if v, ok := p.memoProjEff.Load(c); ok {
+		return v.(int64)
+	}
+	out := c
+	d := newParserDom(p)
+	if d.why == "" {
+		rl := d.inferRoles()
+		if rl.proj != nil && rl.infix != nil {
+			e, st := d.start(rl.proj)
+			d.SetToken(st, 1, "DotToken", nil)
+			for _, o := range e.Run(rl.proj, d.argsFor(rl.proj, avNil{}, c, false), st) {
+				for _, ev := range o.St.Trace {
+					if ev.Kind != "sub" || ev.Fn != rl.infix {
+						continue
+					}
+					sig := ev.Fn.Signature
+					for i := 0; i < sig.Params().Len(); i++ {
+						if b, ok := sig.Params().At(i).Type().Underlying().(*types.Basic); ok && b.Kind() == types.Int {
+							if pw, known := o.St.KnownInt(ev.Args[i+1]); known {
+								out = pw
+							}
+						}
+					}
+				}
+			}
+		}
+	}
+	p.memoProjEff.Store(c, out)
+	return out
 }
 
 func (rr *renderer) consumedStr(items []patItem) string {
@@ -978,7 +1019,7 @@ func ruleTPrimary(p *Program, r *Reporter) {
 		}
 		want := map[string]bool{"=> nil": true}
 		if selectors[tok] {
-			want = map[string]bool{"INFIX(CurrentNode{},7,true)<" + short + "> => $1": true}
+			want = map[string]bool{fmt.Sprintf("INFIX(CurrentNode{},%d,true)<%s> => $1", projEffective(p, 7), short): true}
 		}
 		compareLines(r, pf.Pos(), key, got, want, "the projection parser")
 	}
@@ -1040,7 +1081,6 @@ func ruleTDelims(p *Program, r *Reporter) {
 			return map[string]bool{
 				cur(child, "E(lo) CloseSqBrace => SelectArraySingle{C}Node{{CHILD}Field:$1}"):                            true,
 				cur(child, "E(lo) Comma E(lo) CloseSqBrace => SelectArray{C}Node{{CHILD}Fields:[$1,$2]}"):                true,
-				cur(child, "E(lo) Comma E(lo) Comma E(lo) CloseSqBrace => SelectArray{C}Node{{CHILD}Fields:[$1,$2,$3]}"): true,
 			}
 		}},
 		{rl.selObj, "the multi-select hash parser", true, func(child bool) map[string]bool {
@@ -1089,7 +1129,7 @@ func ruleTDelims(p *Program, r *Reporter) {
 					r.Bad(j.fn.Pos(), key, "a path panics")
 					continue
 				}
-				if o.Cut && o.CutBlock.Parent() != j.fn {
+				if o.Cut && o.CutBlock.Parent() != j.fn && rl.byFn[o.CutBlock.Parent()] != "" {
 					r.Unknown(blockPos(o.CutBlock), key+" loop in "+o.CutBlock.Parent().Name(), "a helper called here loops; what it does is not enumerable by bounded path exploration")
 					continue
 				}
@@ -1112,6 +1152,21 @@ func ruleTDelims(p *Program, r *Reporter) {
 				}
 				if j.fn == rl.let && strings.Count(line, " E(") > 2 {
 					more[line] = o.Ret.Pos()
+					continue
+				}
+				if j.fn == rl.selArr && strings.Count(" "+line, " E(") > 2 {
+					// longer lists: how many the bounded exploration reaches depends on the shape of the loop
+					n := strings.Count(" "+line, " E(")
+					var want []string
+					var refs []string
+					for i := 1; i <= n; i++ {
+						want = append(want, "E(lo)")
+						refs = append(refs, fmt.Sprintf("$%d", i))
+					}
+					exp := cur(child, strings.Join(want, " Comma ")+" CloseSqBrace => SelectArray{C}Node{{CHILD}Fields:["+strings.Join(refs, ",")+"]}")
+					if line != exp {
+						r.Bad(o.Ret.Pos(), key+" :: "+line, "a list of "+fmt.Sprint(n)+" expressions is not parsed as `E , E ... ]` into the node holding them in order")
+					}
 					continue
 				}
 				got[line] = o.Ret.Pos()
